@@ -96,20 +96,27 @@ def _run(ctx):
     else:
         us = allu
     jobs = [("call", dict(module="harness.units", func="observe_solver", args=dict(u=u, kind="bar"))) for u in us]
+    # history: the device is first stated with wrong layer parameters, its scales are read (every second one also builds a solver),
+    # then the layer is corrected IN PLACE: the scales must be those of the corrected parameters
+    edited = us[:3] if ctx.quick else us
+    for n, u in enumerate(edited):
+        jobs.append(("call", dict(module="harness.units", func="observe_solver", args=dict(u=u, kind="bar", history="layer-edit", prior_solver=bool(n % 2)))))
     jobs.append(("call", dict(module="harness.units", func="exact_triangles", args=dict(tris=tris[: (60 if ctx.quick else 400)]))))
     res = rf.replay_all(ctx, jobs)
     tri_obs = res.pop()
     vals = units.constants(tdgl)
-    by_u = {tuple(x["u"]): x["obs"] for x in res}
+    by_u = {tuple(x["u"]): x["obs"] for x in res[: len(us)]}
+    after_edit = res[len(us):]
     ref = by_u[tuple(REF)]
-    # the dimensionless terminal length of the shared mesh (an input of the model's DimJ)
-    vals["L"] = ref["term_len"]["source"] / (units.PHYS["XI"] / 10.0 ** REF[0])
+    # the dimensionless length of a terminal (an input of the model's DimJ): from the geometry that was requested — the terminal
+    # covers one whole side of the bar — not from anything the package reports
+    vals["L"] = units.GEOM["H"] * 1e-6 / units.PHYS["XI"]
     traces, labels = [], []
 
     def abs_events(u, o):
         ev = []
         m = monos[tuple(u)]
-        for q in ("AScale", "CurScaled", "ScreenW", "K0", "Bc2", "DimJ"):
+        for q in ("xi", "lambda", "Lambda", "Bc2", "A0", "K0", "tau0", "V0", "AScale", "CurScaled", "ScreenW", "DimJ"):
             obs = o["DimJ"]["source"] if q == "DimJ" else o[q]
             rq = units.quanta(obs, units.evaluate(m[q], vals))
             if q == "ScreenW":
@@ -139,6 +146,13 @@ def _run(ctx):
         traces.append({"tol": TOL_SCALE, "ev": ev})
         labels.append(("solver", u))
         ctx.note_case(("solver", tuple(u)), True)
+    for x in after_edit:
+        o, u = x["obs"], x["u"]
+        if abs(o["pre_edit"]["K0"] / units.evaluate(monos[tuple(u)]["K0"], vals) - 1) < 0.05:
+            raise core.MachineryFailure("C08: the in-place layer edit does not change K0: vacuous history")
+        traces.append({"tol": TOL_SCALE, "ev": abs_events(u, o) + ratio_events(u, o, REF, ref)})
+        labels.append(("solver after an in-place layer edit", u))
+        ctx.note_case(("solver after layer edit", tuple(u)), True)
     pairs = [(a, b) for a in us for b in us if a != b]
     rnd.shuffle(pairs)
     ev = []
@@ -206,6 +220,11 @@ def _run(ctx):
         for vi, u in enumerate(three + three_more):
             jobs.append(("call", dict(module="harness.units", func="run_twin", args=dict({k: v for k, v in a.items() if k != "tolq"}, u=u, variant=vi))))
             tags.append((label, u))
+        if a.get("reload"):        # history: the same problem on a device whose layer was first stated wrongly and corrected IN PLACE
+            jobs.append(("call", dict(module="harness.units", func="run_twin", args=dict({k: v for k, v in a.items() if k not in ("tolq", "post")},
+                                                                                         u=[-9, -6, -9], layer_edit=True))))
+            tags.append((label, [-9, -6, -9]))
+            variant[len(tags) - 1] = " (layer corrected in place)"
         if a.get("epsilon"):       # the vectorized form of the same epsilon, in the reference unit system
             jobs.append(("call", dict(module="harness.units", func="run_twin", args=dict({k: v for k, v in a.items() if k != "tolq"}, u=REF, epsilon="vectorized"))))
             tags.append((label, REF))
